@@ -862,7 +862,7 @@ pub fn escape_family(thorough: bool) -> Vec<Prog> {
     ("store-in-vec", "let v = Vec.of(p); Process.println(Str.fromInt(v.length()));"),
     ("capture-in-closure", "let f = () -> FST + 1; Process.println(Str.fromInt(f()));"),
     ("store-in-box", "let b = Box.init(p); Process.println(Str.fromInt(Main.reader(b.v)));"),
-    ("pass-to-identity", "let q = Main.id(p); Process.println(Str.fromInt(Main.reader(q)));"),
+    ("pass-to-identity", "let idp = Main.id(p); Process.println(Str.fromInt(Main.reader(idp)));"),
     ("wrap-in-option", "let o = Opt.Some(p); Process.println(o.fold(\"none\", (w) -> Str.fromInt(Main.reader(w))));"),
     ("unused", "let _ = p;"),
     ("pass-to-local-closure", "let fv = (q: TY) -> READQ * 3; Process.println(Str.fromInt(fv(p)));"),
